@@ -369,6 +369,9 @@ HOOK_KINDS = ("metric", "log", "beforeSleep")
 EXC_KINDS = ("ordinary", "abort", "exhausted", "circuitOpen")     # subclasses of Exception
 
 
+_last_twin: CaseRun | None = None
+
+
 def hook_fault_positions(cr: CaseRun) -> list[int]:
     """indices (into the oracle answer list) of hook answers that raise an Exception subclass"""
     pos, i = [], 0
@@ -382,17 +385,23 @@ def hook_fault_positions(cr: CaseRun) -> list[int]:
 
 
 def silent_twin(cr: CaseRun, answers: list[str], meta: dict) -> dict | None:
-    """Re-run the case with every Exception raised by an observability hook replaced by a normal
-    return of the same duration; the run must be identical up to those answers (C15)."""
+    """Re-run the case on the SAME answers with silent hooks (every Exception raised by an observability
+    hook becomes a normal return of the same duration — `World.silent` / `Ans.silenced` in the model);
+    the run must be identical up to those answers (C15; theorem hooks_cannot_alter_control_flow).
+    The twin run is kept in `_last_twin` so that the caller can also put it through the model."""
+    global _last_twin
+    _last_twin = None
     pos = hook_fault_positions(cr)
     if not pos:
         return None
-    scrubbed = list(answers)
-    for i in pos:
-        scrubbed[i] = "unit " + scrubbed[i].split()[-1]
-    twin = replay_case("twin", cr.cfg, cr.script, scrubbed, meta["wall_seed"], meta["deliver_throw"])
+    import copy
+    tcfg = copy.copy(cr.cfg)
+    tcfg.silent_hooks = True
+    twin = replay_case(cr.text.split()[1] + "_twin", tcfg, cr.script, answers, meta["wall_seed"],
+                       meta["deliver_throw"])
     if twin is None:
         return {"sig": "C15/twin-consumes-more-answers", "detail": "silent-hook twin ran out of answers"}
+    _last_twin = twin
     a = [(s, r, x) for (s, r, x) in cr.exchanges]
     b = [(s, r, x) for (s, r, x) in twin.exchanges]
     if len(a) != len(b):
@@ -620,6 +629,8 @@ def run(tier: str, seed: int, props: list[str] | None = None, n_cases: int | Non
         tw = silent_twin(cr, answers, meta)
         if tw is not None:
             counters["twin"]["compared"] += 1
+            if _last_twin is not None:
+                batch.append((_last_twin, meta))     # model with `silent := true` vs implementation with silent hooks
             if tw:
                 res.failures.append({"property": "C15", "kind": "violation", "sig": tw["sig"],
                                      "detail": "run with faulty hooks differs from the run with silent hooks: "
